@@ -13,23 +13,42 @@ BITFNS = ["BitPackShift", "BitPackShift32", "ReadOff", "ReadInt57", "WriteInt57"
 
 
 def regenerate():
-    """translator step: regenerate coq/Gen/{BitPacking,SortedUniform,ProbingMod}.v from the current sources"""
+    """translator step: regenerate coq/Gen/{BitPacking,SortedUniform,ProbingMod}.v from the current sources.
+    A source the translator can no longer render (a construct outside its subset) is not an infrastructure error: the
+    previous rendering stays in place, the unit is returned as broken, and the run goes on to look for a failing input."""
     gen = os.path.join(vlib.COQ, "Gen")
-    txt = cg.translate(os.path.join(INST, "bit_packing_tu.cc"), "util::", BITFNS, [vlib.REPO],
-                       "util/bit_packing.hh, util/bit_packing.cc")
-    vlib.write_if_changed(os.path.join(gen, "BitPacking.v"), txt)
-    docs = cg.clang_ast(os.path.join(INST, "sorted_uniform_tu.cc"), "util::Pivot32", [vlib.REPO])
-    tr = cg.Translator(docs, gname=lambda n: "Pivot32_" + n)
-    tr.info("Calc")
-    vlib.write_if_changed(os.path.join(gen, "SortedUniform.v"), cg.HEADER % "util/sorted_uniform.hh (Pivot32::Calc)" + "\n\n".join(tr.out) + "\n")
-    out = []
-    for cls in ("Power2Mod", "DivMod"):
-        docs = cg.clang_ast(os.path.join(INST, "probing_tu.cc"), "util::" + cls, [vlib.REPO])
-        tr = cg.Translator(docs, gname=lambda n, c=cls: c + "_" + n)
-        tr.info("RoundBuckets")
-        out += tr.out
-    vlib.write_if_changed(os.path.join(gen, "ProbingMod.v"), cg.HEADER % "util/probing_hash_table.hh (RoundBuckets)" + "\n\n".join(out) + "\n")
-    return ["Gen/BitPacking.v", "Gen/SortedUniform.v", "Gen/ProbingMod.v"]
+    broken = []
+
+    def unit(name, f):
+        try:
+            f()
+        except Exception as e:            # cg.Unsupported, a clang failure, a changed signature ...
+            broken.append((name, "%s: %s" % (type(e).__name__, str(e)[:500])))
+
+    def bitpacking():
+        txt = cg.translate(os.path.join(INST, "bit_packing_tu.cc"), "util::", BITFNS, [vlib.REPO],
+                           "util/bit_packing.hh, util/bit_packing.cc")
+        vlib.write_if_changed(os.path.join(gen, "BitPacking.v"), txt)
+
+    def sorted_uniform():
+        docs = cg.clang_ast(os.path.join(INST, "sorted_uniform_tu.cc"), "util::Pivot32", [vlib.REPO])
+        tr = cg.Translator(docs, gname=lambda n: "Pivot32_" + n)
+        tr.info("Calc")
+        vlib.write_if_changed(os.path.join(gen, "SortedUniform.v"), cg.HEADER % "util/sorted_uniform.hh (Pivot32::Calc)" + "\n\n".join(tr.out) + "\n")
+
+    def probing_mod():
+        out = []
+        for cls in ("Power2Mod", "DivMod"):
+            docs = cg.clang_ast(os.path.join(INST, "probing_tu.cc"), "util::" + cls, [vlib.REPO])
+            tr = cg.Translator(docs, gname=lambda n, c=cls: c + "_" + n)
+            tr.info("RoundBuckets")
+            out += tr.out
+        vlib.write_if_changed(os.path.join(gen, "ProbingMod.v"), cg.HEADER % "util/probing_hash_table.hh (RoundBuckets)" + "\n\n".join(out) + "\n")
+
+    unit("util/bit_packing.hh, util/bit_packing.cc", bitpacking)
+    unit("util/sorted_uniform.hh (Pivot32::Calc)", sorted_uniform)
+    unit("util/probing_hash_table.hh (RoundBuckets)", probing_mod)
+    return broken
 
 
 # ---------------------------------------------------------------------------------------------
@@ -415,7 +434,8 @@ def corpus_cases():
 
 
 def run(ctx):
-    regenerate()
+    untranslatable = regenerate()
+    ctx.coverage["untranslatable_units"] = [u for u, _ in untranslatable]
     pres = vlib.coq_prove("C20")
     ctx.set_proof(pres)
     big = not ctx.quick
@@ -487,6 +507,10 @@ def run(ctx):
                        {"correspondence": "C20 extracted model vs c20_driver", "case": c, "impl": a, "model": b, "n_mismatches": len(mismatches)}, found=False)
         elif model_broken:
             ctx.report("model-broken", "executable model no longer builds", {"log": model_broken[-2000:]}, found=False)
+        for u, why in untranslatable:
+            ctx.report("translation:" + u, "the translator can no longer render %s in Gallina (%s): the theorems are not re-checked against the current "
+                       "source, and the specification oracle found no failing input among %d cases" % (u, why, len(cases)),
+                       {"theorem_or_correspondence": "coq/Gen regeneration of " + u, "why": why}, found=False)
         ctx.report_proof(pres)
     ctx.coverage["spec_oracle_failures"] = len(spec_fail)
     ctx.coverage["correspondence_mismatches"] = len(mismatches)
